@@ -68,7 +68,7 @@ Fixpoint run_actions (nick0 prefix0 : str) (mp uh : bool) (s : srv) (b : bot) (a
       L [L (map vMsg ms); L dumps; vView s'] :: run_actions nick0 prefix0 mp uh s' b' r
   end.
 
-Definition srv0 (nick0 user0 host0 : str) : srv := Srv nick0 [SUser nick0 user0 host0] [].
+Definition srv0 (nick0 user0 host0 : str) : srv := Srv nick0 [(nick0, SUser nick0 user0 host0)] [].
 
 (* run: (op payload)
    op 0: (nick0 prefix0 user0 host0 multiprefix uhnames actions) -> per action (msgs dumps view)
